@@ -603,3 +603,132 @@ def check_comparisons(ctx, rep, rid, table):
                     alt = sorted(forms_)
             rep.ob(rid, fn, form, False, None,
                    'the comparison `%s` confirmed for this function is gone%s' % (form, '; the same operands are now compared as %s' % alt if alt else ''))
+
+
+# ------------------------------------------------------------------ A7 may-panic sites
+PANIC_CALLS = {'unwrap': 'unwrap', 'expect': 'expect', 'unwrap_or_else': None, 'panic': 'panic', 'panic_fmt': 'panic', 'panic_display': 'panic',
+               'unreachable': 'panic', 'index': 'index', 'index_mut': 'index', 'remove': 'remove', 'swap_remove': 'remove', 'split_at': 'split',
+               'split_to': 'split', 'split_off': 'split', 'slice': 'slice', 'copy_from_slice': 'copy', 'begin_panic': 'panic', 'assert_failed': 'panic', 'drain': 'drain'}
+
+
+def may_panic_sites(ctx, fn):
+    """[(kind, key, where)] of may-panic constructs in the user code of fn and its nested closures.
+    key identifies the site without line numbers: kind + callee + canonical operand."""
+    from mir import canon
+    out = []
+    defs = [d for d in ctx.facts.body_defs() if d == fn or d.startswith(fn + '::{closure')]
+    for d in sorted(defs):
+        b = ctx.body(d)
+        for bb in sorted(b.reach):
+            t = b.term(bb)
+            k = t.get('t')
+            x = t.get('x', '')
+            if k == 'call':
+                name = t.get('res') or t.get('fn') or ''
+                decl = t.get('fn') or ''
+                last = decl.split('::')[-1]
+                if x.startswith('m:') and not any(m in x for m in ('panic', 'unreachable', 'assert', 'todo', 'unimplemented')):
+                    continue
+                kind = None
+                if last in ('unwrap', 'expect') and ('Option' in decl or 'Result' in decl):
+                    kind = last
+                elif 'panicking::' in decl or last in ('panic_fmt', 'panic', 'begin_panic', 'panic_display', 'assert_failed', 'unreachable_display', 'panic_explicit'):
+                    kind = 'panic'
+                elif decl in ('std::ops::Index::index', 'std::ops::IndexMut::index_mut'):
+                    kind = 'index'
+                elif last in ('remove', 'swap_remove', 'drain', 'split_off') and decl.startswith('std::vec::Vec'):
+                    kind = 'vec_' + last
+                elif last in ('slice', 'split_to', 'split_off', 'advance') and ('bytes::' in decl):
+                    kind = 'bytes_' + last
+                elif last in ('get_u8', 'get_u16_le', 'get_u32_le', 'get_u64_le', 'get_u128_le', 'get_f32_le', 'get_f64_le') and 'Buf' in decl:
+                    kind = 'buf_get'
+                elif last == 'copy_from_slice':
+                    kind = 'copy_from_slice'
+                if kind is None:
+                    continue
+                arg = canon(b.pexpr_operand(t['args'][0]), 0, 1) if t.get('args') else ''
+                arg2 = canon(b.pexpr_operand(t['args'][1]), 0, 1) if kind in ('index', 'vec_remove', 'bytes_slice') and len(t.get('args', [])) > 1 else ''
+                key = '%s %s' % (kind, arg) + (' [%s]' % arg2 if arg2 else '')
+                if kind == 'panic':
+                    key = 'panic!(…)'
+                out.append((kind, key, '%s:%s' % (b.file, t.get('ln')), b, bb))
+            elif k == 'assert' and not x.startswith('m:'):
+                kind = t.get('kind', 'other')
+                if kind.startswith('overflow') or kind in ('div0', 'rem0', 'bounds'):
+                    # operands of the checked operation
+                    e = b.pexpr_operand(t['cond'])
+                    out.append(('assert_' + kind, 'assert_%s %s' % (kind, canon(e, 0, 1)[:160]), '%s:%s' % (b.file, t.get('ln')), b, bb))
+    return out
+
+
+def panic_guarded(site):
+    """recognised guard idioms: unwrap/expect of X dominated by is_some/is_ok/!is_none/!is_err/discr(X)=Some on the same X;
+    constant-range index into X dominated by `len(X) < N` == false with N >= range end"""
+    from mir import canon
+    kind, key, where, b, bb = site
+    t = b.term(bb)
+    if kind in ('unwrap', 'expect'):
+        x = canon(b.pexpr_operand(t['args'][0]), 0, 1)
+        for e, truth, _ in bool_literals_at(b, bb):
+            if e[0] == 'call' and e[2]:
+                last = e[1].split('::')[-1]
+                ex = canon(b_pe(b, e[2][0]), 0, 1)
+                if ex == x and ((last in ('is_some', 'is_ok') and truth) or (last in ('is_none', 'is_err', 'is_empty') and not truth)):
+                    return 'guarded by %s%s' % ('' if truth else '!', last)
+        for e, vals, lit in discr_literals_at(b, bb):
+            if canon(b_pe(b, e), 0, 1) == x and (vals == [1] or vals == [0] and 'Result' in (lit.get('ty') or '')):
+                return 'guarded by a match on the same value'
+        # last()/first() of a collection guarded by !is_empty()
+        for e, truth, _ in bool_literals_at(b, bb):
+            if e[0] == 'call' and e[1].split('::')[-1] == 'is_empty' and not truth:
+                coll = canon(b_pe(b, e[2][0]), 0, 1)
+                if coll in x:
+                    return 'guarded by !is_empty()'
+    if kind == 'index' and len(t.get('args', [])) > 1:
+        rng = b.pexpr_operand(t['args'][1])
+        end = None
+        if rng[0] == 'agg' and rng[1].endswith('Range'):
+            for n, v in rng[3]:
+                if n == 'end' and v[0] == 'const':
+                    end = int(v[1])
+        elif rng[0] == 'const':
+            try:
+                end = int(rng[1]) + 1
+            except ValueError:
+                pass
+        if end is not None:
+            x = canon(b.pexpr_operand(t['args'][0]), 0, 1)
+            for e, truth, _ in bool_literals_at(b, bb):
+                if e[0] == 'bin' and e[1] in ('Lt', 'Ge') and e[3][0] == 'const':
+                    l = e[2]
+                    if (l[0] == 'len' or (l[0] == 'call' and l[1].split('::')[-1] == 'len')):
+                        lx = canon(b_pe(b, l[1] if l[0] == 'len' else l[2][0]), 0, 1)
+                        n = int(e[3][1])
+                        if lx == x and n >= end and ((e[1] == 'Lt' and not truth) or (e[1] == 'Ge' and truth)):
+                            return 'guarded by len >= %d' % n
+    return None
+
+
+def b_pe(b, e):
+    """re-expand a (non-phi) expression's locals through the phi builder where possible — identity for non-locals"""
+    return e
+
+
+def check_panics(ctx, rep, rid, fns, allow, ignore_kinds=('assert_overflow:Add', 'assert_overflow:Mul', 'assert_overflow:Shl')):
+    """every may-panic site in fns is guarded by a recognised idiom or listed in allow[fn][key] = reason"""
+    for fn in fns:
+        if not ctx.has(fn):
+            rep.anchor_lost(rid, fn)
+            continue
+        listed = dict(allow.get(fn, {}))
+        for site in may_panic_sites(ctx, fn):
+            kind, key, where, b, bb = site
+            if kind in ignore_kinds:
+                continue
+            g = panic_guarded(site)
+            if g:
+                rep.ob(rid, fn, key, True, where, g)
+            elif key in listed:
+                rep.ob(rid, fn, key, True, where, 'listed: ' + listed[key])
+            else:
+                rep.ob(rid, fn, key, False, where, 'may-panic site `%s` is neither guarded by a recognised idiom nor listed with a reason why the input cannot trigger it' % key)
